@@ -76,6 +76,19 @@ theorem C20_hot_tier_bound (kind : StratKind) (cap hard soft dim : Nat) (hhard :
     · rw [h1.2]; exact hcfg
     · exact h1.1
 
+/-- **No double counting.**  In every reachable state each `VectorCache` holds at most one entry
+    per document id, so the bounds above count distinct cached documents (an implementation that
+    kept within `cap` entries by letting one id occupy several slots, or that exceeded `cap`
+    distinct documents by some other accounting, is excluded by this together with the bound). -/
+theorem C20_doc_cache_ids_unique (kind : StratKind) (cap hard soft dim : Nat) (ops : List (TOp D)) :
+    AKeysNodup (applyOps digest (TState.init D kind cap hard soft dim) ops).l1a.a.entries ∧
+    AKeysNodup (applyOps digest (TState.init D kind cap hard soft dim) ops).l1a.b.entries := by
+  have hinv : (applyOps digest (TState.init D kind cap hard soft dim) ops).l1a.Inv :=
+    closed_applyOps digest l1Closed_inv _ ops
+      ⟨⟨by simp [TState.init, AKeysNodup, akeys], by simp [TState.init]⟩,
+       ⟨by simp [TState.init, AKeysNodup, akeys], by simp [TState.init]⟩⟩
+  exact ⟨hinv.1.1, hinv.2.1⟩
+
 end
 
 /-! ### Witnesses: the hypotheses are satisfiable and the bounds are tight -/
@@ -114,5 +127,11 @@ theorem C20_query_cache_bound (cap : Nat) (ops : List QOp) :
   have h2 := h.1.2
   rw [h.2] at h2
   exact h2
+
+/-- one entry per (query hash, k, scope) key in every reachable state: the bound counts distinct
+    cached queries -/
+theorem C20_query_cache_keys_unique (cap : Nat) (ops : List QOp) :
+    (QCache.keys ((QCache.init cap).applyOps ops).entries).Nodup :=
+  (QCache.inv_applyOps (QCache.init cap) ops (QCache.inv_init cap)).1.1
 
 end KyroModel.C20
